@@ -38,14 +38,14 @@ async fn read_one_async(path: &Path) -> anyhow::Result<Item> {
     read_one_from_slice(&input)
         .map_err(|err| {
             let msg = match err {
+                // the offending line is file content, which may be key material: never echo it
                 Error::MissingSectionEnd { end_marker } => format!(
-                    "section end {:?} missing",
-                    String::from_utf8_lossy(&end_marker)
+                    "section end marker ({} bytes) missing",
+                    end_marker.len()
                 ),
-                Error::IllegalSectionStart { line } => format!(
-                    "illegal section start: {:?}",
-                    String::from_utf8_lossy(&line)
-                ),
+                Error::IllegalSectionStart { line } => {
+                    format!("illegal section start ({} bytes)", line.len())
+                }
                 Error::Base64Decode(msg) => msg,
             };
             anyhow::anyhow!("failed to decode PEM file contents: {msg}")
